@@ -651,7 +651,20 @@ def own_signature(func):
     bare.__kwdefaults__ = func.__kwdefaults__
     bare.__annotations__ = func.__annotations__
     sig = _util.funcsigs.signature(bare)
-    return _signatures.set_default_sources(sig, func)
+    # functools.wraps hands the wrapped function's annotations over to the
+    # wrapper: they were written in that function's module
+    written_by = func
+    seen = []
+    wrapped = getattr(func, '__wrapped__', None)
+    while (
+            isinstance(wrapped, types.FunctionType)
+            and wrapped.__annotations__ is func.__annotations__
+            and not any(wrapped is f for f in seen)):
+        written_by = wrapped
+        seen.append(wrapped)
+        wrapped = getattr(wrapped, '__wrapped__', None)
+    return _signatures.Signature._upgrade(
+        sig, written_by, _signatures.default_sources(sig, func))
 
 
 def autoforwards_function(func, args, kwargs):
